@@ -59,9 +59,9 @@ EntryAst(r, o, f, name, obf) == MethodAst(B("void"), f, name, <<>>, r, o, obf)
 Entries1 == {EntryAst(r, o, f, B("run"), B("m")) : r \in RangeAlpha, o \in OrigAlpha, f \in ForeignAlpha}
 \* a second entry may share the obfuscated name (inline group / overload) or not
 \* (the second entry ranges over a reduced alphabet in every configuration: the full square was 250k files / 1 GB of cases)
-RangeAlpha2 == {<<>>, <<D(1), D(3)>>, <<D(2), D(3)>>} \cup (IF Rich THEN {<<D(2), D(2)>>, <<D(4), D(6)>>} ELSE {})
+RangeAlpha2 == {<<>>, <<D(1), D(3)>>, <<D(2), D(3)>>} \cup (IF Rich THEN {<<D(4), D(6)>>} ELSE {})
 OrigAlpha2 == {<<>>, <<D(5)>>, <<D(5), D(7)>>} \cup (IF Rich THEN {<<D(8), D(10)>>} ELSE {})
-Entries2 == {EntryAst(r, o, f, nm[1], nm[2]) : r \in RangeAlpha2, o \in OrigAlpha2, f \in ForeignAlpha,
+Entries2 == {EntryAst(r, o, f, nm[1], nm[2]) : r \in RangeAlpha2, o \in OrigAlpha2, f \in {<<>>, <<B("p.Q$R")>>},
                                                   nm \in {<<B("run"), B("m")>>, <<B("call"), B("m")>>, <<B("call"), B("n")>>}}
 
 ClassA == ClassAst(B("com.Foo$Bar"), B("a"))
